@@ -540,3 +540,60 @@ M('c09-wsgi-forwarded-host-unusable-header-answers-none', 'C09', 'R20', 'falcon/
 # negative controls (exit 0): `first = forwarded[0]; host = first.host or self.netloc`; `host = self.env.get('HTTP_X_FORWARDED_HOST')
 # or self.netloc`... is a different function for a blank header and is judged by the worlds (non-blank header: silent);
 # early returns instead of the `host` local; `if not forwarded: return self.netloc`
+
+# ---------------------------------------------------------------- second preserving wave (k2-*): refactoring + break
+_RQ = 'falcon/request.py'
+_FW = 'falcon/forwarded.py'
+# k2-c09-1 shape: the first/last chain re-ordered through De Morgan with a guard clause in front; the mistake is a body under the wrong guard
+_RANGE_CHAIN = ("            if first and last:\n                first_num, last_num = (int(first), int(last))\n                if last_num < first_num:\n"
+                "                    raise ValueError()\n            elif first:\n                first_num, last_num = (int(first), -1)\n"
+                "            elif last:\n                first_num, last_num = (-int(last), -1)\n                if first_num >= 0:\n"
+                "                    raise ValueError()\n            else:\n                msg = 'The range offsets are missing.'\n"
+                "                raise errors.HTTPInvalidHeader(msg, 'Range')\n")
+_RANGE_REORDERED = ("            if not (first or last):\n                msg = 'The range offsets are missing.'\n"
+                    "                raise errors.HTTPInvalidHeader(msg, 'Range')\n\n"
+                    "            if not %s:\n                first_num, last_num = (int(first), -1)\n"
+                    "            elif not %s:\n                first_num, last_num = (%s, -1)\n                if first_num >= 0:\n"
+                    "                    raise ValueError()\n            else:\n                first_num, last_num = (int(first), int(last))\n"
+                    "                if last_num %s first_num:\n                    raise ValueError()\n")
+# the two one-sided arms under each other's guard: 'bytes=5-' is read through int('') (a 400), 'bytes=-5' as the open range
+M('c09-range-reordered-arms-swapped', 'C09', 'R6', _RQ, _RANGE_CHAIN, _RANGE_REORDERED % ('first', 'last', '-int(last)', '<'), also=('C16',))
+# the suffix arm forgets the sign
+M('c09-range-reordered-suffix-positive', 'C09', 'R6', _RQ, _RANGE_CHAIN, _RANGE_REORDERED % ('last', 'first', 'int(last)', '<'), also=('C16',))
+# the comparison of the full pair made inclusive
+M('c09-range-reordered-one-byte-rejected', 'C09', 'R6', _RQ, _RANGE_CHAIN, _RANGE_REORDERED % ('last', 'first', '-int(last)', '<='), also=('C16',))
+# the suffix length held in a local (C16 R12 role() through one local), sign forgotten
+M('c09-range-suffix-local-positive', 'C09', 'R6', _RQ,
+  "                first_num, last_num = (-int(last), -1)\n", "                n = int(last)\n                first_num, last_num = (n, -1)\n", also=('C16',))
+
+# k2-c16-3 shape: range_unit by slicing at the position of '='; the mistake is the LAST '=' instead of the first
+_UNIT_PART = "            unit, sep, req_range = value.partition('=')\n            return unit\n"
+M('c09-range-unit-slice-at-last-equals', 'C09', 'R6', _RQ, _UNIT_PART, "            return value[: value.rindex('=')]\n", also=('C16',))
+M('c09-range-unit-slice-local-rfind', 'C09', 'R6', _RQ, _UNIT_PART, "            cut = value.rfind('=')\n            return value[:cut]\n", also=('C16',))
+M('c09-range-unit-rsplit', 'C09', 'R6', _RQ, _UNIT_PART, "            return value.rsplit('=', 1)[0]\n", also=('C16',))
+
+# k2-c09-2 shape: the by/for/host/proto block in a module-level helper called as a statement; the mistake sits in the helper
+_FWD_BLOCK = ("                if name == 'by':\n                    parsed_element.dest = value\n                elif name == 'for':\n"
+              "                    parsed_element.src = value\n                elif name == 'host':\n                    parsed_element.host = value\n"
+              "                elif name == 'proto':\n")
+_FWD_HELPER = ("def _set_forwarded_param(element, name, value):\n    if name == 'by':\n        element.dest = value%s\n    elif name == 'for':\n"
+               "        element.src = value\n    elif name == 'host':\n        element.host = value%s\n    elif name == 'proto':\n"
+               "        element.scheme = value.lower()\n\n\ndef _parse_forwarded_header(")
+_FWD_TAIL = ('                    # NOTE(kgriffs): RFC 7239 only requires that\n'
+             '                    # the "proto" value conform to the Host ABNF\n'
+             '                    # described in RFC 7230. The Host ABNF, in turn,\n'
+             '                    # does not require that the scheme be in any\n'
+             '                    # particular case, so we normalize it here to be\n'
+             '                    # consistent with the WSGI spec that *does*\n'
+             "                    # require the value of 'wsgi.url_scheme' to be\n"
+             "                    # either 'http' or 'https' (case-sensitive).\n")
+
+
+def _fwd_helper_edits(dest_suffix, host_suffix):
+    return [{'file': _FW, 'old': "def _parse_forwarded_header(", 'new': _FWD_HELPER % (dest_suffix, host_suffix)},
+            {'file': _FW, 'old': _FWD_BLOCK + _FWD_TAIL + "                    parsed_element.scheme = value.lower()\n",
+             'new': "                _set_forwarded_param(parsed_element, name, value)\n"}]
+
+
+M2('c09-forwarded-helper-lowercases-dest', 'C09', 'R7', _fwd_helper_edits('.lower()', ''))
+M2('c09-forwarded-helper-casefolds-host', 'C09', 'R7', _fwd_helper_edits('', '.casefold()'))
